@@ -927,9 +927,50 @@ class Gen:
             ("mctor", 2), ("swap", 2), ("adlswap", 2), ("setobj", 2), ("setobjm", 2), ("cenergy", 2),
             ("wptr", 1 if nc else 0), ("wchk", 1 if self.wptr else 0), ("q", 1),
             ("kassign", 2 if nc else 0), ("kswap", 2 if nc >= 2 else 0), ("oassign", 1 if nc else 0),
-            ("kassignobj", 1 if nc else 0),
+            ("kassignobj", 1 if nc else 0), ("scen", 6),
         ]
         op = self.weighted(table)
+
+        if op == "scen":
+            # a scripted source state followed at once by an operation that BUILDS A NEW native model / expression from it
+            # (copying fix_variables, copy construction / assignment of models and of expressions): an expression in which
+            # >= 3 variables interact, the interactions entered in random order and orientation, non-zero linear biases on
+            # a random subset entered before / between / after them (so variables with a zero linear bias precede and follow
+            # variables with a non-zero one in the expression's own order).  The printed state of the result is checked like
+            # every state (sorted, symmetric, lookups = iteration, counts), and the following random ops edit it.
+            ops, n = [], nv
+            while n < 4 and n <= MAXN:
+                ops.append("caddvar %s %s" % (Cn, VT_NAME[self.ch("BBIS")])); n += 1
+            cand = [i for i in range(nv) if vts[i] != "R"] + list(range(nv, n))
+            if len(cand) < 3:
+                return None
+            vs = r.sample(cand, min(len(cand), r.randint(3, 5)))
+            rest = [i for i in range(n) if i not in vs]
+            if nc and r.random() < 0.5:
+                c = r.randrange(nc); pre, head = "k", "%s %d" % (Cn, c)
+            else:
+                c = None; pre, head = "o", Cn
+            ops.append("%sclear %s" % (pre, head))
+            pairs = [(u, v) for i, u in enumerate(vs) for v in vs[i + 1:]]
+            r.shuffle(pairs)
+            pairs = pairs[:max(3, r.randint(2, len(pairs)))]
+            body = ["%saq %s %d %d %s" % ((pre, head) + (p if r.random() < 0.5 else p[::-1]) + (fmt(self.nzbias()),)) for p in pairs]
+            lins = ["%sal %s %d %s" % (pre, head, v, fmt(self.nzbias())) for v in r.sample(vs, r.randint(1, len(vs) - 1))]
+            for ln in lins:
+                body.insert(r.randint(0, len(body)), ln)
+            ops += body
+            fixed = r.sample(rest, r.randint(0, len(rest))) if r.random() < 0.7 else r.sample(range(n), r.randint(0, max(0, n - 3)))
+            dst = Cn if r.random() < 0.6 else other
+            builder = self.weighted([("cfxs", 10), ("copy", 2), ("cctor", 2), ("obj2k", 2 if nc else 0), ("k2obj", 2 if nc else 0)])
+            if builder == "cfxs":
+                ops.append("cfxs %s %s %s %s" % (Cn, dst, ilist(fixed), dlist(self.ch(FIXVALS) for _ in fixed)))
+            elif builder in ("copy", "cctor"):
+                ops.append("%s %s %s" % (builder, other, Cn))
+            elif builder == "obj2k":
+                ops.append("kassignobj %s %d" % (Cn, r.randrange(nc)))
+            else:
+                ops.append("oassign %s %d" % (Cn, r.randrange(nc)))
+            return ops
 
         if op == "caddvar":
             if nv > MAXN:
@@ -1205,6 +1246,59 @@ def post_check(op_line, before, reply):
         for k, c in enumerate(after[D]["cons"]):
             if c["disc"] and not c["onehot"]:
                 bad.append("fix_variables: constraint %d marked discrete but not one-hot" % k)
+        # the new model holds the polynomials obtained by fixing the variables by hand (independent dict computation)
+        try:
+            fv = [int(x) for x in t[3].split(",")] if t[3] != "-" else []
+            vals = [F(x) for x in t[4].split(",")] if t[4] != "-" else []
+            fixed = dict(zip(fv, vals))
+            src = before[X]
+            keep = [g for g in range(src["nv"]) if g not in fixed]
+            new = {g: i for i, g in enumerate(keep)}
+
+            def poly(e):
+                lin, quad = {}, {}
+                for i, g in enumerate(e["vars"]):
+                    lin[g] = lin.get(g, 0) + e["lin"][i]
+                    for j, b in e["adj"][i]:
+                        if j <= i:
+                            k2 = (min(g, e["vars"][j]), max(g, e["vars"][j]))
+                            quad[k2] = quad.get(k2, 0) + b
+                return lin, quad, e["off"]
+
+            def fix(e):
+                lin, quad, off = poly(e)
+                nl, nq = {}, {}
+                for g, b in lin.items():
+                    if g in fixed:
+                        off += b * fixed[g]
+                    else:
+                        nl[new[g]] = nl.get(new[g], 0) + b
+                for (u, v), b in quad.items():
+                    if u in fixed and v in fixed:
+                        off += b * fixed[u] * fixed[v]
+                    elif u in fixed:
+                        nl[new[v]] = nl.get(new[v], 0) + b * fixed[u]
+                    elif v in fixed:
+                        nl[new[u]] = nl.get(new[u], 0) + b * fixed[v]
+                    else:
+                        nq[(new[u], new[v])] = nq.get((new[u], new[v]), 0) + b
+                return nl, nq, off
+
+            def same(a, b):
+                (l1, q1, o1), (l2, q2, o2) = a, b
+                z = lambda d: {k: v for k, v in d.items() if v != 0}
+                return z(l1) == z(l2) and z(q1) == z(q2) and o1 == o2
+
+            ok = all(isinstance(x, F) for e in [src["obj"]] + src["cons"] for x in [e["off"]] + e["lin"] + [b for row in e["adj"] for _, b in row])
+            if ok and all(isinstance(v, F) for v in vals):
+                pairs = [("objective", src["obj"], after[D]["obj"])] + [("constraint %d" % k, a, b) for k, (a, b) in enumerate(zip(src["cons"], after[D]["cons"]))]
+                if len(src["cons"]) != len(after[D]["cons"]):
+                    bad.append("fix_variables: %d constraints became %d" % (len(src["cons"]), len(after[D]["cons"])))
+                for name, a, b in pairs:
+                    if not same(fix(a), poly(b)):
+                        bad.append("fix_variables: %s of the new model is %r, fixing by hand gives %r" % (name, poly(b), fix(a)))
+        except (ValueError, KeyError, IndexError, TypeError):
+            pass
     return bad
 
 
